@@ -2913,16 +2913,28 @@ impl WasmGenerator {
                 // Allocate a temp region in linear memory for state exchange
                 let size = ty.word_size() as i32;
                 let size_bytes = (size as u32).max(1) * 8;
-                let temp_addr = self.mem_layout.state_temp_base;
-                self.mem_layout.state_temp_base += size_bytes;
+                if self.use_runtime_alloc_for_current_function {
+                    // The function may be entered again (recursion, an instance of a lambda
+                    // calling another instance of the same lambda) before the value read here
+                    // is used: every activation needs a region of its own, as for `Alloc`.
+                    self.emit_runtime_alloc(size_bytes, func);
+                    func.instruction(&W::LocalGet(self.alloc_base_local));
+                    func.instruction(&W::I32Const(size));
+                    func.instruction(&W::Call(self.rt.state_get));
+                    func.instruction(&W::LocalGet(self.alloc_base_local));
+                    func.instruction(&W::I64ExtendI32U);
+                } else {
+                    let temp_addr = self.mem_layout.state_temp_base;
+                    self.mem_layout.state_temp_base += size_bytes;
 
-                // Call state_get(dst_ptr: i32, size_words: i32) to fill temp memory
-                func.instruction(&W::I32Const(temp_addr as i32));
-                func.instruction(&W::I32Const(size));
-                func.instruction(&W::Call(self.rt.state_get));
+                    // Call state_get(dst_ptr: i32, size_words: i32) to fill temp memory
+                    func.instruction(&W::I32Const(temp_addr as i32));
+                    func.instruction(&W::I32Const(size));
+                    func.instruction(&W::Call(self.rt.state_get));
 
-                // Push the temp address as i64 so subsequent Load can read from it
-                func.instruction(&W::I64Const(temp_addr as i64));
+                    // Push the temp address as i64 so subsequent Load can read from it
+                    func.instruction(&W::I64Const(temp_addr as i64));
+                }
             }
 
             I::ReturnFeed(value, ty) => {
